@@ -81,6 +81,23 @@ CHECKS = {
              "is eventually run) is assumed",
         technique="Lean 4 invariants over an acceptor of hook/API event traces + deterministic simulation of the real runtime on a virtual clock",
         design="§5.0, §5 C04"),
+    "C05": dict(
+        text="Lean 4 theorems about a thread-lifecycle automaton that the event log of real multi-vCPU runs (in the order of a global atomic "
+             "stamp) must be accepted by: by induction over all accepted histories the entry function of every thread is entered at most once; "
+             "at the end every created thread has run to completion (none lost); a thread is resumed only while it is outside (between the "
+             "announcement of a blocking / migrating call and its return) and every announcement and the return of the entry function happen on "
+             "the vCPU of its last resumption, so it exists on one vCPU at a time; thread_join returns only after the entry function returned, "
+             "with its value, once; vCPU thread counts return to their initial value. Tied to the code by generated programs on 1..4 real vCPUs "
+             "(OS threads) with and without work stealing: threads created by vCPU mains or by other threads, joinable or detached, stealable or "
+             "not, yielding, sleeping, migrating themselves, joining; an in-harness atomic flag independently detects simultaneous execution, a "
+             "watchdog detects lost threads. Finding F18 (idle stealers deadlock) shown by the check and repaired; F19, F20 recorded as known",
+        note="trusted: Lean kernel + 3 standard axioms; PARTIAL: runs are real races on real time (not every interleaving; a violation that needs a "
+             "rare interleaving is found only with some probability, the quick tier runs 400 programs, thorough 3000); the release of thread "
+             "stacks (pooled / default allocator) is not observed - libphoton is not ASan-instrumented in this harness; thread pools, "
+             "thread_create11/go and migration of OTHER threads are not exercised; hangs of programs with work stealing are attributed to the "
+             "known livelock F20 unless their rate exceeds 5% (F18 hung 40%); crashes with work stealing and self-migration are attributed to F19",
+        technique="Lean 4 invariants over a lifecycle automaton + run-time trace validation of the real multi-vCPU runtime",
+        design="§5 C05"),
     "C06": dict(
         text="Lean 4 theorems about photon::rwlock modelled on top of the mutex and condition-variable layers (its internal mutex and "
              "condition variable are followed event by event; wait inside rwlock::lock owes the deferred unlock of the internal mutex): by "
